@@ -22,7 +22,7 @@ KEYS = ["sorted", "odd", "uhf", "mult_ok", "conv", "sp2", "exc", "nstates", "hom
 
 def nfaults(q):
     return sum([not q["sorted"], (not q["uhf"]) and q["odd"], q["uhf"] and not q["mult_ok"], q["uhf"] and q["sp2"], q["uhf"] and q["conv"] == 2, q["uhf"] and q["exc"] != "none",
-                q["exc"] != "none" and not q["nstates"], q["exc"] == "bogus", q["exc"] == "rpa" and not q["homog"], q["exc"] == "cis" and not q["homog"] and (q["active"] > 0 or q["com"] != "nomd"), q["com"] != "nomd" and q["exc"] == "rpa" and q["homog"], q["active"] > 0 and q["exc"] == "none", q["com"] == "bogus"])
+                q["exc"] != "none" and not q["nstates"], q["exc"] == "bogus", q["exc"] == "rpa" and not q["homog"], q["exc"] == "cis" and not q["homog"] and (q["active"] > 0 or q["com"] != "nomd"), q["active"] > 0 and q["exc"] == "none", q["com"] == "bogus"])
 
 
 def main(tier):
